@@ -123,3 +123,18 @@ Theorem C08_config : forall n p m J Q B pref,
   agg_config RN B' pref (mmul RN p J Q) = res_map (fun v => vmR p v Q) (agg_config RN B pref J).
 Proof. exact config_orthogonal. Qed.
 Print Assumptions C08_config.
+
+(* ---- GradDrop (added): column-local.  Coordinate j is a function of column j, the leak vector and
+   the draw u_j alone, and an all-zero column yields 0 whatever the draw: permuting the columns
+   together with their draws permutes the output, appended zero columns append zeros ---- *)
+From TJ.proofs Require Import GradDropPermProofs.
+Theorem C08_graddrop_columns : forall leak U J, length leak = length J ->
+  agg_graddrop RN (Some leak) U J
+  = Ok (map (fun '(j, u) => graddrop_coord RN leak (column RN J j) u)
+            (List.combine (seq 0 (ncols J)) U)).
+Proof. exact graddrop_column_local. Qed.
+Print Assumptions C08_graddrop_columns.
+Theorem C08_graddrop_zero_column : forall leak m u, length leak = m ->
+  graddrop_coord RN leak (repeat 0 m) u = 0.
+Proof. exact graddrop_zero_column. Qed.
+Print Assumptions C08_graddrop_zero_column.
